@@ -134,7 +134,7 @@ def run_step(tree, cache_text, cache_dir_exists=True, marker_files=True):
 
     con = RecConsole()
     saved = {}
-    patches = [(scn, "os", fos), (scn, "Path", FP), (scn, "open", fs.open), (scn, "calculate_checksum", lambda p: K(content_of[str(p)])), (scn, "_analyze_file", fake_analyze),
+    patches = [(scn, "os", fos), (scn, "Path", FP), (scn, "relpath", fos.relpath), (scn, "open", fs.open), (scn, "calculate_checksum", lambda p: K(content_of[str(p)])), (scn, "_analyze_file", fake_analyze),
                (scn, "get_lexer_for_filename", lambda p: _real_glff(str(p))), (scn, "generate_exclude_spec", lambda root: _real_spec(FP(str(root)))), (scn, "Live", _Live), (scn, "print", lambda *a, **k: None),
                (scanmod, "Console", lambda *a, **k: con), (rmod, "uuid4", _U.uuid4), (rmod, "datetime", _D)]
     for mod, name, val in patches:
